@@ -91,13 +91,16 @@ Proof.
   unfold spec_construct_b. rewrite ref_pencil_tables. cbn [fst snd].
   destruct m.
   - intros H. injection H as <- <-. rewrite !wf_matb_mtab. cbn [andb].
-    apply (model_tables_pass D _ _ (npe_repaired (mof Xl) N W)). apply npe_seen_gen. assumption.
+    exact (model_tables_pass D (npe_lhs N (mof Xl) W) (npe_rhs N (mof Xl))
+             (npe_repaired (mof Xl) N W) (npe_seen_gen D N (mof Xl) W Eb)).
   - destruct (Nat.eqb N 0); [discriminate|].
     intros H. injection H as <- <-. rewrite !wf_matb_mtab. cbn [andb].
-    apply (model_tables_pass D _ _ (lltsa_fixed (mof Xl) N W)). apply lltsa_seen_gen. assumption.
+    exact (model_tables_pass D (lltsa_lhs N (mof Xl) W) (lltsa_rhs N (mof Xl))
+             (lltsa_fixed (mof Xl) N W) (lltsa_seen_gen D N (mof Xl) W Eb)).
   - destruct (negb (Nat.eqb (length dvl) N)); [discriminate|].
     intros H. injection H as <- <-. rewrite !wf_matb_mtab. cbn [andb].
-    apply (model_tables_pass D _ _ (lpp_repaired (mof Xl) N W (vof dvl))). apply lpp_seen_gen. assumption.
+    exact (model_tables_pass D (lpp_lhs N (mof Xl) W) (lpp_rhs N (mof Xl) (vof dvl))
+             (lpp_repaired (mof Xl) N W (vof dvl)) (lpp_seen_gen D N (mof Xl) W (vof dvl) Eb)).
 Qed.
 
 (* the model never leaves its buffers on well-formed inputs *)
@@ -119,6 +122,7 @@ Qed.
 
 (* ---------------- witnesses ---------------- *)
 Definition wX : mat Qc := mof [[qz 1; qz 1]; [qz 0; qz 1]].     (* samples (1,0) and (1,1) *)
+Definition wX2 : mat Qc := mof [[qz 1; qz 2]; [qz 0; qz 1]].    (* samples (1,0) and (2,1) *)
 Definition wW : sparse Qc := [(0%nat, 1%nat, qz 1)].
 Definition wdv : vec Qc := vof [qz 1; qz 1].
 
@@ -138,7 +142,7 @@ Proof.
 Qed.
 
 Theorem lltsa_seen_refuted_w :
-  indices_ok 2 wW /\ ~ solver_sees 2 (lltsa_lhs_f9 2 wX wW) (lltsa_rhs 2 wX) (lltsa_shipped wX 2 wW).
+  indices_ok 2 wW /\ ~ solver_sees 2 (lltsa_lhs_f9 2 wX2 wW) (lltsa_rhs 2 wX2) (lltsa_shipped wX2 2 wW).
 Proof.
   split; [exact wW_ok|]. intros [HA _]. specialize (HA 1%nat 0%nat).
   revert HA. cbn [seen p_lhs]. intros HA.
